@@ -264,6 +264,13 @@ fn run_dense(v: &[u64]) {
         }
         // a second batch through extend (which reserves by size_hint) on the populated stack
         fs.extend((0..n).map(|i| string(v[2] + 1 + i as u64)));
+        // a stack pre-sized from this one absorbs the same contents without spending anything on its own indices either
+        let mut fs2 = <FlatStack<ConsecutiveIndexPairs<StringRegion>, IndexOptimized>>::merge_capacity([&fs, &fs].into_iter());
+        for i in 0..n {
+            fs2.copy(string(v[2] + i as u64));
+        }
+        let pairs2 = collect_heap(|cb| fs2.heap_size(cb));
+        vassert!(pairs2[pairs2.len() - 2..].iter().all(|p| p.0 == 0 && p.1 == 0), "VF:dense.flatstack_indices_allocate_heap");
         let region_pairs = collect_heap(|cb| fs.heap_size(cb));
         // the last two pairs are the FlatStack's own index container (u32 and u64 lists)
         let own = &region_pairs[region_pairs.len() - 2..];
@@ -283,10 +290,10 @@ fn run_dense(v: &[u64]) {
 // ---------------------------------------------------------------------------------------------------- C14 IntoOwned laws
 // args: kind (0 slice, 1 columns, 2 option, 3 result, 4 nested slice), x (value selector), t (prior target selector), rep (0 region-backed, 1 owned-borrowed)
 fn pre_io(v: &[u64]) -> bool {
-    v[0] < 7 && v[1] < 4 && v[2] < 5 && v[3] < 2
+    v[0] < 8 && v[1] < 4 && v[2] < 5 && v[3] < 2
 }
 fn doms_io() -> Vec<Vec<u64>> {
-    vec![range(7), range(4), range(5), range(2)]
+    vec![range(8), range(4), range(5), range(2)]
 }
 fn run_io(v: &[u64]) {
     let x = ITEMS[v[1] as usize];
@@ -297,6 +304,9 @@ fn run_io(v: &[u64]) {
             let mut r = R::default();
             let _ = r.push([7u8, 7].as_slice());
             let i = r.push(x);
+            // (the item has a predecessor and successors in its source region)
+            let _ = r.push([8u8, 8, 8].as_slice());
+            let _ = r.push([9u8].as_slice());
             let owned0: Vec<u8> = x.to_vec();
             let item = if v[3] == 0 { r.index(i) } else { IntoOwned::borrow_as(&owned0) };
             vassert!(item.into_owned() == x, "VF:intoowned.slice.into_owned");
@@ -320,6 +330,31 @@ fn run_io(v: &[u64]) {
             let jc = r2c.push(x);
             let jc2 = r2c.push(x);
             vassert!(j == jc && j2 == jc2, "VF:intoowned.slice.region_to_region_index");
+        }
+        7 => {
+            // consecutive pairs over a slice region whose own offsets are compressed: element indices of one pushed item
+            // leave the stride inside a single IndexContainer::extend
+            crate::section("VF:intoowned.cip_opt");
+            type R = ConsecutiveIndexPairs<SliceRegion<MirrorRegion<usize>, IndexOptimized>>;
+            let pool: [&[usize]; 5] = [&[0, 3, 6], &[9, 12, 13, 14], &[], &[7], &[5, 5, 6]];
+            let order = [v[1] as usize % 5, (v[1] as usize + v[2] as usize + 1) % 5, (v[2] as usize + 3) % 5, 1, 0];
+            let mut r = R::default();
+            let mut want: Vec<&[usize]> = Vec::new();
+            for round in 0..2 {
+                for k in order {
+                    let i = if v[3] == 0 { r.push(pool[k]) } else { r.push(pool[k].to_vec()) };
+                    want.push(pool[k]);
+                    vassert!(i == want.len() - 1, "VF:intoowned.cip_opt.index");
+                    for (j, w) in want.iter().enumerate() {
+                        let it = r.index(j);
+                        vassert!(it.len() == w.len() && it.iter().eq(w.iter().copied()), "VF:intoowned.cip_opt.read");
+                    }
+                }
+                if round == 0 {
+                    r.clear();
+                    want.clear();
+                }
+            }
         }
         6 => {
             // the owned-borrowed read item as input form, over a fan-out inner region (its elements are rebuilt through
@@ -499,7 +534,7 @@ pub fn harnesses() -> Vec<H> {
             bound: "IndexOptimized, IndexList<Vec<u32>,Vec<u64>>, Vec<usize>: all sequences of length 0..4 over the 12-value transition alphabet {0,1,2,3,4,5,6,8,u32::MAX,u32::MAX+1,2^63,usize::MAX} by push, one extend, two-three extend batches, or a push followed by extends; index/len/iter/clone/reserve/clear/with_capacity; heap bytes equal the documented cost rule; a fully strided sequence allocates nothing, also after reserve", kani: false },
         H { name: "dense_indices_free", props: &["C19"], nargs: 3, pre: pre_dense, doms: doms_dense, run: run_dense, panic_ok: false,
             bound: "FlatStack<ConsecutiveIndexPairs<StringRegion>, IndexOptimized> and FlatStack<ColumnsRegion<MirrorRegion<u8>>, IndexOptimized> with 0..40 items (optionally after an earlier life of empty or mixed items and a clear) by copy, a reserve in between and a second batch by extend (first composition): own index container reports 0 used and 0 allocated bytes", kani: false },
-        H { name: "into_owned_laws", props: &["C14", "C20", "C12", "C13", "C08"], nargs: 4, pre: pre_io, doms: doms_io, run: run_io, panic_ok: false,
+        H { name: "into_owned_laws", props: &["C14", "C20", "C12", "C13", "C08", "C01"], nargs: 4, pre: pre_io, doms: doms_io, run: run_io, panic_ok: false,
             bound: "read items of SliceRegion<MirrorRegion<u8>>, ColumnsRegion<MirrorRegion<u8>>, Option<&[u8]>, Result<&[u8],&str>, SliceRegion<SliceRegion<..>>: 4 values x 5 prior clone_onto targets (empty/shorter/longer/equal/other variant) x region-backed and owned-borrowed; region-to-region push (indices compared with the canonical form on a twin), also into ConsecutiveIndexPairs<SliceRegion<..>> followed by further items; owned-borrowed read item of SliceRegion<OptionRegion<StringRegion>> versus &Vec (index, reads, used bytes)", kani: false },
         H { name: "read_item_ordering", props: &["C15"], nargs: 11, pre: pre_cmp, doms: doms_cmp, run: run_cmp, panic_ok: false,
             bound: "SliceRegion<MirrorRegion<u8>>: triples of u8 vectors of length 0..2 (native: bytes over {0,1,255}), each side region-backed from two different regions or owned-borrowed: ==, !=, <, <=, >, >=, partial_cmp, cmp, max, min equal those of the Vecs; reflexive, antisymmetric, transitive", kani: false },
